@@ -719,7 +719,13 @@ CONFIG_ROUTES = (
     "loader-update",     # launcher.community_kwargs.update(...)
     "loader-assign",     # launcher.community_kwargs = {...}
     "loader-get-kwargs",  # launcher class overriding get_kwargs
+    # a settings object edited in place, the idiom of the repository's own tests and documentation: the operator ADDS
+    # flags to whatever the defaults are
+    "attr-ior",          # settings = TunnelSettings(); settings.peer_flags |= {...}
+    "attr-add",          # for f in ...: settings.peer_flags.add(f)
+    "attr-update",       # settings.peer_flags.update({...})
 )
+ADDITIVE_ROUTES = ("attr-ior", "attr-add", "attr-update")
 CONFIG_PAYLOADS = ("dht-ping", "utp-syn", "tracker-connect", "ipv8-other", "ipv8-own", "bt+ipv8", "junk")
 
 
@@ -740,7 +746,23 @@ def _build_configured(route: str, node, flags):  # noqa: ANN001, ANN202
 
     from .. import fixtures  # noqa: PLC0415
     other = {"min_circuits": 0, "max_circuits": 0}      # what else this operator sets (never peer flags)
-    if route.startswith("service"):
+    if route in ADDITIVE_ROUTES:
+        from ipv8.messaging.anonymization.community import TunnelCommunity, TunnelSettings  # noqa: PLC0415
+        from ipv8.peerdiscovery.network import Network  # noqa: PLC0415
+        settings = TunnelSettings()
+        for k, v in other.items():
+            setattr(settings, k, v)
+        if flags is not None:
+            if route == "attr-ior":
+                settings.peer_flags |= set(flags)
+            elif route == "attr-add":
+                for f in sorted(flags):
+                    settings.peer_flags.add(f)
+            else:
+                settings.peer_flags.update(set(flags))
+        settings.my_peer, settings.endpoint, settings.network = node.my_peer, node.endpoint, Network()
+        o = TunnelCommunity(settings)
+    elif route.startswith("service"):
         from ipv8.configuration import ConfigBuilder, get_default_configuration  # noqa: PLC0415
         from ipv8_service import IPv8  # noqa: PLC0415
         key_b64 = base64.b64encode(fixtures.private_bin(node.key_index)).decode()
@@ -812,6 +834,10 @@ def config_cases(thorough: bool) -> list[tuple]:
 def run_config(case: tuple, seed: int) -> tuple[list, tuple]:
     route, first, second = case
     viol: list = []
+    # every case starts where a fresh process starts: an earlier case of this worker may have edited the class-level
+    # default in place (that is exactly what the in-place routes probe for)
+    from ipv8.messaging.anonymization.community import TunnelSettings  # noqa: PLC0415
+    TunnelSettings._peer_flags = set(ref.DEFAULT_FLAGS)  # noqa: SLF001
     w = TunnelWorld(("c06-config", seed), {"O": set(PLAIN)}, key_offset=seed % 8)
     try:
         obs = []
@@ -822,6 +848,8 @@ def run_config(case: tuple, seed: int) -> tuple[list, tuple]:
         simnet.introduce(w, list(w.ov.values()))
         for name, spec in (("X1", first), ("X2", second)):
             policy = frozenset(ref.configured_flags(None if spec is None else FLAGSETS[spec]))
+            if route in ADDITIVE_ROUTES:
+                policy = frozenset(ref.DEFAULT_FLAGS | policy)      # this operator added its flags to the defaults
             which = "first" if name == "X1" else "second"
             other = second if name == "X1" else first
             try:
